@@ -285,6 +285,111 @@ class SelectionProofTask(T.Task):
         return None
 
 
+class CandidatesProofTask(T.Task):
+    """UNBOUNDED (modulo the assumed contract of sorted): BIC.candidates_from_bank_code on an ABSTRACT registry group
+    (any number of well-formed entries): the result is [BIC(e.bic) for e in sorted(group, key=primary, reverse=True)
+    if e.bic] - the sort key, the filter and the map are evaluated for one generic entry; constructing the BIC of a
+    well-formed entry never raises."""
+    name = "BIC.candidates_from_bank_code (abstract registry group, all sizes)"
+    skip_cover = True
+
+    def setup(self, I):
+        from pyvc import alist as L
+        from pyvc import alist_hooks
+        from pyvc.values import SFn
+        alist_hooks.install()
+        self.n = z3.Int("n_entries")
+        self.ent = z3.Function("entry", z3.IntSort(), L.Elem)
+        self.primary = z3.Function("EntryPrimary", L.Elem, z3.BoolSort())
+        I.assumptions.append(self.n >= 0)
+        # well_formed(bank entry) (C17): the BIC text is empty or a valid BIC - as a formula over a generic element
+        g0 = z3.Const("wf_generic", L.Elem)
+        p0 = self.text(I, g0)
+        acc, _ = T.spec_formula(I, B.accept_bic, [p0, False])
+        self.wf = lambda e, acc=acc, g0=g0: z3.Or(L.ElemLen(e) == 0, z3.substitute(acc, (g0, e)))
+        return {}
+
+    def text(self, I, e):
+        from pyvc import alist as L
+        from pyvc.values import SFn
+        seen = {}
+
+        def at(i, e=e):
+            i = z3.simplify(i) if z3.is_expr(i) else z3.IntVal(i)
+            t = L.ElemAt(e, i)
+            if t.get_id() not in seen:
+                seen[t.get_id()] = t
+                I.assumptions.append(z3.Implies(z3.And(i >= 0, i < L.ElemLen(e)), z3.And(CC.Fix(t), CC.fix_facts(t))))
+            return t
+        p = SFn(L.ElemLen(e), at, f"bic({e})")
+        p.all_fix = True
+        p.upper_closed = True
+        I.assumptions.append(L.ElemLen(e) >= 0)
+        return p
+
+    def make_element(self, I, e):
+        I.assumptions.append(self.wf(e))
+        d = {"bic": self.text(I, e), "primary": SBool(self.primary(e)), "name": "n", "short_name": "s",
+             "bank_code": "K", "country_code": "DE"}
+        d = I.alloc(d)
+        self.elements[id(d)] = e
+        return d
+
+    def describe_map(self, results):
+        from schwifty import BIC
+        bad = []
+        for el, v in results:
+            if not (isinstance(v, SObj) and v.cls is BIC and payload(v) is el["bic"]):
+                bad.append(repr(v)[:60])
+        return "BIC(entry.bic)" if not bad else f"unexpected map results {bad[:2]}"
+
+    def code(self, I, inp):
+        from pyvc import alist as L
+        from schwifty import BIC, registry
+        self.elements = {}
+        grp = L.AList(dict, self.n, lambda j: self.ent(j), name="group")
+        grp.make_element = self.make_element
+        grp.describe_map = self.describe_map
+        index = I.alloc({("DE", "K"): grp})
+        I.contracts["schwifty.registry.get"] = lambda I2, name: index if name == "bank_code" else registry.get(name)
+        I.contracts["schwifty.common.clean"] = CC.clean_contract
+        r = I.call(I.getattr(BIC, "candidates_from_bank_code"), ["DE", "K"], {})
+        return ("RESULT", r)
+
+    def custom_obligations(self, I, inp, code_paths, cobs):
+        from pyvc import alist as L
+        out = []
+        q = z3.Const("q_entry", L.Elem)
+        for i, (path, o) in enumerate(cobs):
+            pc = path["pc"]
+            if isinstance(o, (T.Escape, T.ExcTag)):
+                out.append((f"path {i}: a listed pair does not raise ({o!r})", pc, z3.BoolVal(False)))
+                continue
+            r = o[1]
+            ok_shape = isinstance(r, L.AList) and r.base is not None and getattr(r.base, "sort_key", None) is not None \
+                and r.base.base is not None and r.base.base.base is None
+            out.append((f"path {i}: the result is a filtered map of sorted(group, key=..., reverse=...)", pc, z3.BoolVal(ok_shape)))
+            if not ok_shape:
+                continue
+            g, kv, rev = r.base.sort_key
+            out.append((f"path {i}: the sort key is the entry's primary flag, descending (primary entries first; sorted is "
+                        "stable, so the listed order is kept within each class)", pc,
+                        z3.And(z3.BoolVal(rev and isinstance(kv, SBool)),
+                               (kv.t == self.primary(g)) if isinstance(kv, SBool) else z3.BoolVal(False))))
+            out.append((f"path {i}: an entry is kept exactly when its BIC is non-empty", pc,
+                        z3.Implies(self.wf(q), r.pred(q) == (L.ElemLen(q) > 0))))
+            out.append((f"path {i}: each kept entry is mapped to BIC(entry.bic), and constructing it never raises "
+                        f"(map: {getattr(r, 'map_desc', None)}; error: {getattr(r, 'map_error', None)})", pc,
+                        z3.BoolVal(getattr(r, "map_desc", None) == "BIC(entry.bic)" and getattr(r, "map_error", 1) is None)))
+        return out
+
+    def native_agree(self, inp):
+        return True, None, None
+
+    def sample(self, rnd):
+        return None
+
+
 # ------------------------------------------------------------------------------------------ bundled registry
 def spec_candidates(group):
     prim = [e for e in group if e["primary"]]
@@ -410,7 +515,7 @@ def main(seed, tier):
     if tier == "thorough":
         ks.append(4)
         shapes += ["11,11,11,11", "11,8,11,8"]
-    specs = [("props.c12", "SelectionProofTask", ())]
+    specs = [("props.c12", "SelectionProofTask", ()), ("props.c12", "CandidatesProofTask", ())]
     specs += [("props.c12", "CandidatesTask", (k,)) for k in ks] + [("props.c12", "SelectionTask", (s,)) for s in shapes]
     results = common.run_tasks(specs, seed, tier)
     problems, stats = registry_evaluation()
@@ -426,10 +531,13 @@ def main(seed, tier):
         assumptions=["selection rule of from_bank_code: PROVED for candidate lists of any length (abstract lists: filters "
                      "evaluated for one generic element, sorted() assumed to return a permutation so that its last "
                      "element is a member); precondition: every candidate is a valid BIC (8 or 11 characters)",
-                     "candidate order / filter of candidates_from_bank_code: BOUNDED in the group size (<= 3 quick / 4 "
-                     "thorough entries with symbolic contents) - the bundled registry has groups of up to 957 entries, "
-                     "covered by the exhaustive native evaluation; build_index, invertibility and the IBAN-side accessors "
-                     "are evaluated exhaustively on the bundled registry, not proved for arbitrary registries",
+                     "candidates_from_bank_code: PROVED for registry groups of any size to be [BIC(e.bic) for e in "
+                     "sorted(group, key=primary, reverse=True) if e.bic] with the BIC constructor never raising on "
+                     "well-formed entries (sort key, filter and map evaluated for one generic entry); that this list is "
+                     "'primary entries first, listed order kept' rests on the ASSUMED contract of sorted (stable); the "
+                     "same statement is cross-checked on symbolic groups of <= 3 / 4 entries with a modelled stable sort",
+                     "build_index, invertibility and the IBAN-side accessors are evaluated exhaustively on the bundled "
+                     "registry (22,753 keys), not proved for arbitrary registries",
                      "sorted() is stable and returns a permutation (assumed; modelled as a stable insertion sort)",
                      "registry entries satisfy well_formed (C17): a non-empty BIC is a valid BIC",
                      "'any registry contents' beyond the bundled data is covered only up to the size bound"],
